@@ -47,6 +47,33 @@ let run () = iter_lines (fun line ->
          end
        end
      | _ -> report "BAD" "regex line" line)
+  | 'u', [ast; top; ln; res] ->
+    (* user-style notation: `]` outside a class unescaped, class members unescaped where legal *)
+    let r = parse_re ast in
+    (match split_on ' ' ln with
+     | [s; _nl] ->
+       let s = text_of_hex s in
+       let m = full r s in
+       bump (Printf.sprintf "regex(user notation):match=%b" m);
+       if hex_of_bytes (utf8_encode (print_user r)) <> top then report "BAD" "user-notation printer mismatch between harness and model" line
+       else if res <> b2s m then begin
+         (* the listed known finding: a `]` that stands for itself after a complete character class is pulled into that class *)
+         let rec flat = function Seq (a, b) -> flat a @ flat b | x -> [x] in
+         let rec after_class seen = function
+           | [] -> false
+           | Cls (_, _) :: t -> after_class true t
+           | Chr c :: t -> (seen && int_of_n c = 93) || after_class seen t
+           | Star (Chr c) :: t -> (seen && int_of_n c = 93) || after_class seen t
+           | _ :: t -> after_class seen t in
+         if after_class false (flat r) then
+           report "SPEC:C04" "known:regex-class-heuristic a closing square bracket that stands for itself after a complete character class is taken into that class ([a]b] is read as [a\\]b]): the expectation does not match the lines of the expression as written" line
+         else begin
+           report "DIFF:regex" (Printf.sprintf "model=%b" m) line;
+           report "SPEC:C04" (if m then "a regex expectation (user notation) does not match a line that is in the language of its expression"
+                              else "a regex expectation (user notation) matches a line although the whole line is not in the language of its expression") line
+         end
+       end
+     | _ -> report "BAD" "regex line" line)
   | 'z', [e; res] ->
     (* the preparation of a regex expression, character for character (what does not compile afterwards is not observable) *)
     let et = text_of_hex e in
